@@ -38,7 +38,7 @@ type C10Case struct {
 }
 
 var c10Unary = []string{"ugate", "uctx", "uquick"}
-var c10Stream = []string{"srecv", "sctx", "ssend", "sgate", "secho", "srst", "sdl"}
+var c10Stream = []string{"srecv", "sctx", "ssend", "sgate", "secho", "srst", "sdl", "sbig"}
 
 func genC10(t *rapid.T) C10Case {
 	c := C10Case{Ser: rapid.Bool().Draw(t, "ser"), Stats: rapid.IntRange(0, 3).Draw(t, "stats") == 0}
@@ -172,6 +172,15 @@ func execC10(t *testing.T, c C10Case) (v Verdict) {
 					sched.Park(nil, "gate-"+name) // ... and the handler takes its time to leave
 					return s.Context().Err()
 				})
+			case "sbig":
+				// opened with the largest grpc-timeout the wire format can express: for the connection's purposes no
+				// deadline at all - the handler's context must still end with the connection
+				svc.Stream(name, true, true, func(s grpcServerStream) error {
+					enter(s.Context())
+					defer leave()
+					<-s.Context().Done()
+					return s.Context().Err()
+				})
 			case "sdl":
 				svc.Stream(name, true, true, func(s grpcServerStream) error {
 					enter(s.Context())
@@ -220,6 +229,9 @@ func execC10(t *testing.T, c C10Case) (v Verdict) {
 			}
 			if h.Kind == "sdl" {
 				e.HdrMD = []kit.RawKV{{K: "grpc-timeout", V: "30m"}}
+			}
+			if h.Kind == "sbig" {
+				e.HdrMD = []kit.RawKV{{K: "grpc-timeout", V: []string{"99999999H", "2562048H", "99999999M"}[i%3]}}
 			}
 			_ = l.A.Write(context.Background(), e.Build(uint64(i+1), kit.FullMethod(fmt.Sprintf("h%d", i)), "c0", kit.ServerName))
 			if h.Kind == "srst" {
